@@ -95,6 +95,49 @@ def linkerTables {K L α : Type} [DecidableEq K] (name : K) (linker : Store L α
   dictFromPairs (subs.map fun p => (p.1, modelTable p.2 status iterations includeInternal))
     [(name, modelTable linker status iterations includeInternal)]
 
+/-! ## Name-dependent access: variable name vs. storage key
+
+`Store.data` is the series BY NAME.  In the code the name is not where the series lives: `add_variable(name, v)` does
+`self.__dict__['_' + name] = v` and `obj[name]` reads `self.__dict__['_' + name]` after checking `name in index`
+(`__getitem__` -> `self.__getattr__(key)`, the class's own `__getattr__`, NOT Python's attribute lookup).  `Obj` makes
+that map explicit so that names which look like storage keys (`_Y` next to `Y`) or like members of the class
+(`size`, `copy`, `values` …) are inside the model: a name is an opaque string, the only place it is rewritten is
+`storageKey`. -/
+
+/-- `'_' + name`: the `__dict__` key under which the series of variable `name` is stored. -/
+def storageKey (name : String) : String := "_" ++ name
+
+/-- An instance as it is in memory: `dict` is the part of `__dict__` that holds series (storage key ↦ cells, in
+    insertion order); `index` / `names` as in `Store`. -/
+structure Obj (L α : Type) where
+  span : List L
+  index : List String
+  names : List String
+  dict : List (String × List α)
+
+/-- `obj[key]` for a str key (`VectorContainer.__getitem__`): `KeyError` (`none`) unless `key in index`, otherwise
+    `self.__getattr__(key)` = `self.__dict__['_' + key]`. -/
+def getItem {L α : Type} (o : Obj L α) (key : String) : Option (List α) :=
+  if key ∈ o.index then dictGet o.dict (storageKey key) else none
+
+/-- NOT what the code does — what `getattr(self, key)` would do (Python's normal lookup: the instance `__dict__`
+    under `key` ITSELF first, `__getattr__` only when that fails; class members left out).  Kept to state that the
+    two differ exactly on names that are the storage key of another variable. -/
+def attrLookup {L α : Type} (o : Obj L α) (key : String) : Option (List α) :=
+  match dictGet o.dict key with
+  | some v => some v
+  | none => getItem o key
+
+/-- The by-name view the exports read (`model[k]` for every `k` they ask for). -/
+def Obj.toStore {L α : Type} (o : Obj L α) : Store L α :=
+  { span := o.span, index := o.index, names := o.names, data := fun k => (getItem o k).getD [] }
+
+/-- The `__dict__` a constructor builds from by-name series: `add_variable` is called once per name in `index`
+    order, each doing `self.__dict__['_' + name] = series`. -/
+def Store.toObj {L α : Type} (m : Store L α) : Obj L α :=
+  { span := m.span, index := m.index, names := m.names,
+    dict := dictFromPairs (m.index.map fun k => (storageKey k, m.data k)) [] }
+
 /-! ## `from_dataframe` -/
 
 /-- The defaults `ModelInterface.__init__` fills in: `default_value` (before the cast), `'-'`, `-1`. -/
@@ -103,21 +146,38 @@ structure Defaults (α : Type) where
   status : α
   iterations : α
 
+/-- The keyword-only parameter of `ModelInterface.__init__` that a column of the same label is taken for. -/
+def defaultValueParam : String := "default_value"
+
 /-- `initial_values.get(name, default_value)` broadcast to the span and cast:
-    `np.array(col).astype(dtype)` resp. `np.full(len(span), default_value).astype(dtype)`. -/
+    `np.array(col).astype(dtype)` resp. `np.full(len(span), default_value).astype(dtype)`.
+    `kwargs` are the columns as `cls(index, **columns)` receives them: a column labelled `default_value` does not
+    reach `initial_values`, it BINDS THE PARAMETER `default_value` — so it is that column (one cell per period,
+    `np.full` broadcasts it as it is) which fills every variable without a column of its own, the variable called
+    `default_value` included (which therefore still receives its own series). -/
 def initialSeries {α : Type} (cast : α → α) (dflt : α) (n : Nat) (kwargs : List (String × List α)) (k : String) : List α :=
   match dictGet kwargs k with
   | some col => col.map cast
-  | none => List.replicate n (cast dflt)
+  | none =>
+    match dictGet kwargs defaultValueParam with
+    | some col => col.map cast
+    | none => List.replicate n (cast dflt)
+
+/-- A column labelled like a positional parameter of `__init__` (`self`, `span`; reflected): `cls(index, **columns)`
+    raises `TypeError: got multiple values for argument`. -/
+def kwargsClash {α : Type} (cols : List (String × List α)) : Bool :=
+  cols.any (fun c => Fsic.Generated.modelCtorPositional.contains c.1)
 
 /-- `cls.from_dataframe(data)` for a class with `NAMES`, non-strict: `cls(index, **{k: v.values for k, v in
-    data.items()})`.  `none` = the constructor raises `DuplicateNameError` (duplicates in `NAMES`, or a variable
-    called `status` / `iterations`, which `add_variable` has already defined).  Columns that are not in `NAMES`
-    are ignored; variables without a column get the default.  The index becomes the span (`list(index)`; the four
+    data.items()})`.  `none` = the call raises: `DuplicateNameError` (duplicates in `NAMES`, or a variable
+    called `status` / `iterations`, which `add_variable` has already defined) or `TypeError` (`kwargsClash`: a column
+    called `self` / `span`).  Columns that are not in `NAMES` are ignored (columns labelled `engine` / `strict` /
+    `dtype` are outside the model: they would bind those parameters; no model variable can have such a name);
+    variables without a column get the default.  The index becomes the span (`list(index)`; the four
     pandas index classes are passed through as they are — either way the same sequence of labels). -/
 def fromTable {L α : Type} (cast : α → α) (dflt : Defaults α) (NAMES : List String) (t : Table L α) :
     Option (Store L α) :=
-  if NAMES.Nodup ∧ "status" ∉ NAMES ∧ "iterations" ∉ NAMES then
+  if NAMES.Nodup ∧ "status" ∉ NAMES ∧ "iterations" ∉ NAMES ∧ kwargsClash t.cols = false then
     some { span := t.index
            index := "status" :: "iterations" :: NAMES
            names := NAMES
